@@ -198,10 +198,68 @@ func c16OpString(a *An, opStr *ssa.Function) {
 		}
 		lastKey = key
 	}
-	for _, grp := range groups {
+	// third joining idiom: "write the separator unless the builder is still empty, then the name" - a group that is the
+	// lone separator under (the guard of the name that follows) AND (builder.Len() > 0) gives that name its separator;
+	// the text is then returned whole (no leading separator to strip).
+	isLenPos := func(l Lit) bool {
+		if l.A.Kind != AkCmp || l.A.K != "c:0" || !strings.Contains(l.A.Subj, "(*strings.Builder).Len(") {
+			return false
+		}
+		if l.Neg {
+			return l.A.Op == "<=" || l.A.Op == "=="
+		}
+		return l.A.Op == ">" || l.A.Op == "!="
+	}
+	sepBefore := map[int]bool{} // index (in the filtered list) of the groups preceded by a conditional separator
+	{
+		var kept [][]piece
+		pendingSep := ""
+		havePending := false
+		for _, grp := range groups {
+			v := grp[0].v
+			if len(grp) == 1 && grp[0].g == nil && grp[0].konst == "|" && len(v.Cond) == 1 {
+				rest := Conj{}
+				nLen := 0
+				for k, l := range v.Cond[0] {
+					if isLenPos(l) {
+						nLen++
+						continue
+					}
+					rest[k] = l
+				}
+				if nLen == 1 {
+					if havePending {
+						probs = append(probs, "two separators in a row at "+a.P.instrPos(v.Instr))
+					}
+					pendingSep, havePending = rest.String(), true
+					continue
+				}
+			}
+			if havePending {
+				if len(v.Cond) == 1 && v.Cond[0].String() == pendingSep {
+					sepBefore[len(kept)] = true
+				} else {
+					probs = append(probs, sprintf("the separator before the token at %s is written under another condition (%s) than the token (%s)", a.P.instrPos(v.Instr), stripIDs(pendingSep), stripIDs(v.Cond.String())))
+				}
+				havePending = false
+			}
+			kept = append(kept, grp)
+		}
+		if havePending {
+			probs = append(probs, "a separator is written after the last token")
+		}
+		if len(sepBefore) > 0 && len(sepBefore) != len(kept) {
+			probs = append(probs, sprintf("%d of %d tokens are preceded by a conditional separator", len(sepBefore), len(kept)))
+		}
+		groups = kept
+	}
+	for gi, grp := range groups {
 		v := grp[0].v
 		pos := a.P.instrPos(v.Instr)
 		prefix := ""
+		if sepBefore[gi] {
+			prefix = "|"
+		}
 		var tabPiece *piece
 		bad := false
 		for i := range grp {
@@ -419,11 +477,14 @@ func c16OpString(a *An, opStr *ssa.Function) {
 		case *ssa.Slice:
 			lo, isLo := constUint(x.Low)
 			call, isCall := x.X.(*ssa.Call)
-			if isLo && lo == 1 && x.High == nil && isCall && call.Call.StaticCallee() != nil && fullName(call.Call.StaticCallee()) == "(*strings.Builder).String" {
+			if isLo && lo == 1 && x.High == nil && isCall && call.Call.StaticCallee() != nil && fullName(call.Call.StaticCallee()) == "(*strings.Builder).String" && len(sepBefore) == 0 {
 				okStrip = true
 			}
 			rw = append(rw, "returns "+stripIDs(v.Ctx.path(x)))
 		case *ssa.Call:
+			if cal := x.Call.StaticCallee(); cal != nil && fullName(cal) == "(*strings.Builder).String" && len(sepBefore) > 0 && len(sepBefore) == len(groups) {
+				okStrip = true // every token but the first written is preceded by the separator: nothing to strip
+			}
 			if cal := x.Call.StaticCallee(); cal != nil && fullName(cal) == "strings.Join" && joined && len(x.Call.Args) == 2 {
 				if k, isK := x.Call.Args[1].(*ssa.Const); isK && k.Value != nil && k.Value.ExactString() == `"|"` {
 					okStrip = true
